@@ -1,4 +1,4 @@
-(* C15, declarations (since fix <commit15> of /repo): Data::check / Codata::check establish EXACTLY the
+(* C15, declarations (since fix eb42971 of /repo): Data::check / Codata::check establish EXACTLY the
    declaration part of the typing rules.
      Ty::check_template (model [ty_check_template]) succeeds on a type written in a declaration with
      parameters ps  iff  [wf_tty ts ps] holds of it: i64, a parameter WITHOUT arguments, or a declared
